@@ -93,6 +93,7 @@ func (w *World) verifyFunc(fn *ssa.Function, c *FuncContract) (x *Exec, err erro
 		x.assume(st, t)
 	}
 	fr.entry = st.clone()
+	x.topEntryAlloc = st.alloc
 	// vacuity: the precondition must be satisfiable
 	o := x.obligation(st, "cover", x.curFunc+":pre:cover", TFalse, c.Props, "precondition satisfiable", "")
 	o.Cover = true
@@ -272,7 +273,7 @@ func solveOne(i int, o *Obligation, cfg RunConfig) {
 	if res.Verdict != "unsat" && res.Verdict != "sat" && !o.Cover && !o.NoRetry {
 		// one retry with a much longer budget: a loaded machine must not turn
 		// a slow proof into an alarm
-		r2, _ := raceSolvers(file, cfg.Timeout*6, cfg.Solvers)
+		r2, _ := raceSolvers(file, retryBudget(cfg.Timeout), cfg.Solvers)
 		if r2.Verdict == "unsat" || r2.Verdict == "sat" {
 			res = r2
 		}
@@ -303,4 +304,14 @@ func solveOne(i int, o *Obligation, cfg RunConfig) {
 	if o.Status == "discharged" && os.Getenv("VC_KEEP") == "" {
 		os.Remove(file)
 	}
+}
+
+// retryBudget: second attempt of an undischarged obligation. Generous on
+// purpose: an alarm must come from the code, never from a loaded machine.
+func retryBudget(first time.Duration) time.Duration {
+	b := first * 18
+	if b > 6*time.Minute {
+		b = 6 * time.Minute
+	}
+	return b
 }
